@@ -701,6 +701,52 @@ class World:
                                 "members": []}
         self.log.ev("open_archive", aname, str(p.relative_to(self.root)))
 
+    def op_short_lived_archives(self, csvmod):
+        """One archive per station: each is created, gets a member of the same
+        name, is closed, read back and forgotten before the next one."""
+        cs = self.cs
+        k = cs.between("narc", 3, 7)
+        df, fm = gen_frame(cs, "sl")
+        if fm["nrow"] > 100:
+            return
+        comment = gen_comment(cs, "slc")
+        fmt = cs.choice("fmt", FORMATS)
+        d = self.dirs[cs.draw("dir", len(self.dirs))]
+        self.nname += 1
+        self.log.ev("short_lived_archives", k, fm["cols"], fm["nrow"], fmt)
+        self.set_seams(csvmod)
+        SimDateTime._now = self.clock
+        if self.clock.year < 1980 or self.clock.year > 2107:
+            return
+        rec = {"mode": "member", "frame": fm, "comment": comment, "fmt": fmt}
+        for i in range(k):
+            p = d / f"station{self.nname}_{i}.zip"
+            try:
+                zf = zipfile.ZipFile(str(p), "w",
+                                     compression=zipfile.ZIP_DEFLATED)
+                csvmod.write_csv(df, "folder_a/data.csv", comment,
+                                 self.path_arg(self.script, "src"), archive=zf,
+                                 float_format=fmt)
+                zf.close()
+                del zf
+            except Exception as e:
+                raise Violation("write_failed", f"member folder_a/data.csv of "
+                                f"a fresh archive (number {i + 1} of {k} made "
+                                f"one after the other) raised {e!r}",
+                                "short_lived_archives")
+            try:
+                with zipfile.ZipFile(str(p), "r") as zr:
+                    back, com = csvmod.read_csv("folder_a/data.csv",
+                                                archive=zr)
+            except Exception as e:
+                raise Violation("read_failed", f"member of fresh archive "
+                                f"{i + 1} of {k} raised {e!r}",
+                                "short_lived_archives")
+            compare(back, com, rec, f"fresh archive {i + 1} of {k}",
+                    "short_lived_archives")
+        self.compared = True
+        self.ctx.hit("probe.short_lived_archives")
+
     def op_close_reopen(self):
         cs = self.cs
         if not self.archives:
@@ -773,7 +819,8 @@ class World:
 OPS = [("write", 10), ("overwrite", 4), ("read", 10), ("rewrite_from_read", 4),
        ("rejected_write", 3),
        ("open_archive", 3),
-       ("reopen_archive", 3), ("chdir", 3), ("tick", 4), ("restart", 2)]
+       ("reopen_archive", 3), ("chdir", 3), ("tick", 4), ("restart", 2),
+       ("short_lived_archives", 2)]
 
 
 def run(cs, log, ctx):
@@ -821,6 +868,8 @@ def run(cs, log, ctx):
                     w.op_rewrite_from_read(csvmod)
                 elif kind == "rejected_write":
                     w.op_rejected_write(csvmod)
+                elif kind == "short_lived_archives":
+                    w.op_short_lived_archives(csvmod)
                 elif kind == "open_archive":
                     w.op_open_archive()
                 elif kind == "reopen_archive":
